@@ -120,6 +120,8 @@ def job_forest(payload):
             if len(out["bad"]) < 3:
                 out["bad"].append(("harness:generator-selfcheck", dict(file=path, shape=shape)))
             continue
+        # a header-only unit has no root and no DIEs: it cannot be represented as a unit value and is not listed
+        truth = [t for t in truth if t[0] is not None]
         try:
             eng, err = engine_listing(d, path)
             if eng is None:
